@@ -251,6 +251,7 @@ impl<'a, 'tcx> Cx<'a, 'tcx> {
         match rv {
             Rvalue::Use(op, ..) => format!("{{\"k\":\"use\",\"op\":{}}}", self.operand(op)),
             Rvalue::Ref(_, bk, p) => format!("{{\"k\":\"ref\",\"mut\":{},\"place\":{}}}", matches!(bk, BorrowKind::Mut { .. }), self.place(p)),
+            Rvalue::RawPtr(kind, p) => format!("{{\"k\":\"ref\",\"raw\":true,\"mut\":{},\"place\":{}}}", matches!(kind, RawPtrKind::Mut), self.place(p)),
             Rvalue::BinaryOp(op, ab) => format!("{{\"k\":\"binop\",\"op\":{},\"a\":{},\"b\":{}}}", esc(&format!("{:?}", op)), self.operand(&ab.0), self.operand(&ab.1)),
             Rvalue::UnaryOp(op, a) => format!("{{\"k\":\"unop\",\"op\":{},\"a\":{}}}", esc(&format!("{:?}", op)), self.operand(a)),
             Rvalue::Cast(kind, a, ty) => format!("{{\"k\":\"cast\",\"kind\":{},\"a\":{},\"ty\":{}}}", esc(&format!("{:?}", kind)), self.operand(a), esc(&ty.to_string())),
